@@ -87,6 +87,20 @@ theorem C02_initial_design (ne : NumEnv) (d : Decl) (ts : List Slice) (x : Confi
     (h : invAll ne (normalizedHps d.hps) ts = some x) : memSpace d x = true :=
   design_mem hw hu h
 
+/-- **C02 (numeric sequences, "identity" transformer).**  For an ordinal hyperparameter whose
+sequence is numeric — all `int`, all `float`, **or mixing ints and floats** (the legal short-hand
+`[1, 2.5, 4.5, 8]`) — the value a tree surrogate's optimizer hands out after
+`transform → clip → inverse_transform` of a declared value is again a declared value: the typed
+choice itself on a homogeneous sequence (`Identity(type_func=int)` / `Identity()`), a float equal
+to a declared number on a mixed one (`1.0` for the declared `1`; never a truncated `2` for `2.5`).
+Holds for every dimension kind and transformer (`h.wfTr`: the identity transformer is only put
+on numeric sequences). -/
+theorem C02_sequence_roundtrip_member (ne : NumEnv) (h : Hp) (hw : h.wf = true) (hwt : h.wfTr = true)
+    (v w : Val) (hm : memDim h.dim v = true)
+    (hinv : invDim ne h (clipSlice (tBounds ne h) (trDim ne h v)) = some w) :
+    memDim h.dim w = true :=
+  invDim_mem hw (trDim_tok hwt hm).2 hinv
+
 /-- **C02 (every call succeeds — totality of the model).**  The model returns an error output
 exactly where the code raises (`Err`: `badN`, `emptySample`, `badIndex`, `envShort`, `finRaises`,
 `notInSpace`, `noModel`; the table in `Proofs/AskTotal.lean` says which statement raises each).
@@ -196,6 +210,55 @@ example : memDim (.real (3 / 100000) 7000 .logUniform) (.real (ne1.pw 7000)) = f
 
 /-- DESIGN §6-2a: the transformed coordinate of a category (`0.0` for `"x"`) is not a member -/
 example : memDim (.cat [.str "x", .str "y", .str "w"]) (.real 0) = false := by decide +kernel
+
+/-- a numeric sequence mixing ints and floats, `mult ∈ (1, 2.5, 4.5, 8)`, tree surrogate
+("identity" transformer): `Space.rvs` hands out the declared objects (`1`, `2.5`), the model phase
+hands the values back as floats — `1.0` is the declared `1`.  What `int(2.5)` gives (`2`), a
+float that is not declared (`2.0`) and `True` are not members (seeded change C02-8: the
+transformer chosen by looking at the first category only truncates `2.5` to `2`). -/
+def dMix : Decl :=
+  { hps := [{ name := "mult", dim := .cat [.int 1, .real (5 / 2), .real (9 / 2), .int 8], tr := .identity,
+              cond := none }],
+    forbs := [] }
+
+example : dMix.wfAll = true := by decide +kernel
+example : memSpace dMix [.int 1] = true := by decide +kernel
+example : memSpace dMix [.real 1] = true := by decide +kernel
+example : memSpace dMix [.real (5 / 2)] = true := by decide +kernel
+example : memSpace dMix [.int 2] = false := by decide +kernel
+example : memSpace dMix [.real 2] = false := by decide +kernel
+example : memSpace dMix [.bool true] = false := by decide +kernel
+example : checkXInSpace dMix [.real 1] = true := by decide +kernel
+-- the model's inverse step hands the float itself back, as the code does
+example : fin ne1 dMix [[5 / 2]] = some [.real (5 / 2)] := by decide +kernel
+example : fin ne1 dMix [[1]] = some [.real 1] := by decide +kernel
+-- the hypotheses of `C02_sequence_roundtrip_member` are satisfiable on the mixed sequence
+example : (dMix.hps.all fun h => h.wf && h.wfTr) = true := by decide +kernel
+-- on a homogeneous sequence the declared kind is the sequence's kind
+example : memDim (.cat [.int 1, .int 2, .int 4]) (.real 2) = false := by decide +kernel
+example : memDim (.cat [.real 1, .real 2]) (.int 2) = false := by decide +kernel
+
+/-- a categorical whose choices have different types (`["sqrt", 1, 0.5]`): the declared objects
+are the members — the string `"1"` (what a conversion of the choices to a common NumPy type
+hands out: seeded change C02-11) is not -/
+example : memDim (.cat [.str "sqrt", .int 1, .real (1 / 2)]) (.int 1) = true := by decide +kernel
+example : memDim (.cat [.str "sqrt", .int 1, .real (1 / 2)]) (.str "1") = false := by decide +kernel
+example : memDim (.cat [.str "sqrt", .int 1, .real (1 / 2)]) (.real 1) = false := by decide +kernel
+
+/-- a parent whose active value is falsy in Python: `lr` is active iff `use_default == False`.
+`deactivate_inactive_dimensions` keeps the active `False` (it is a value, not a missing entry);
+replacing it by the first choice `True` while `lr` keeps its value is not a member (seeded change
+C02-12: `x_dict.get(name) or bounds[0]`) -/
+def dFalsy : Decl :=
+  { hps := [{ name := "use_default", dim := .cat [.bool true, .bool false], tr := .label, cond := none },
+            { name := "lr", dim := .int 1 10 .uniform, tr := .identity, cond := some (.cmp 0 .eq (.bool false)) }],
+    forbs := [] }
+
+example : dFalsy.wfAll = true := by decide +kernel
+example : deactivate ne1 dFalsy [.bool false, .int 7] = some [.bool false, .int 7] := by decide +kernel
+example : memSpace dFalsy [.bool false, .int 7] = true := by decide +kernel
+example : memSpace dFalsy [.bool true, .int 7] = false := by decide +kernel
+example : deactivate ne1 dFalsy [.bool true, .int 7] = some [.bool true, .int 1] := by decide +kernel
 
 /-- a ConfigSpace sample without `b` (inactive) is completed with `b = 1` -/
 example : fillInactive d1.hps [some (.str "y"), some (.int 2), none, some (.real 1)] =
